@@ -93,7 +93,7 @@ impl GlobalZoneIndexCache {
         if let Ok(mut guard) = self.inner.lock() {
             let keys: Vec<_> = guard
                 .iter()
-                .filter(|(key, _)| key.path.ends_with(segment_label))
+                .filter(|(key, _)| super::path_in_segment_dir(&key.path, segment_label))
                 .map(|(key, _)| key.clone())
                 .collect();
             for key in keys {
@@ -102,7 +102,7 @@ impl GlobalZoneIndexCache {
         }
 
         if let Ok(mut inflight) = self.inflight.lock() {
-            inflight.retain(|key, _| !key.path.ends_with(segment_label));
+            inflight.retain(|key, _| !super::path_in_segment_dir(&key.path, segment_label));
         }
     }
 
